@@ -63,7 +63,7 @@ func init() {
 func c08Cases(tier string, seed int64) []string {
 	n, k := 6, 6
 	if tier == "thorough" {
-		n, k = 60, 80
+		n, k = 1200, 1200
 	}
 	var l []string
 	for i := 0; i < n; i++ {
